@@ -2636,15 +2636,55 @@ func vC03ZoneWalkCase(r *rand.Rand) map[string]any {
 		w = append([]byte{byte(64 + r.Intn(192))}, w...)
 		kind = "zones-labeltype"
 	}
+	stop := 0
+	if r.Intn(3) == 0 {
+		stop = 1 + r.Intn(4)
+	}
+	return vC03ZoneWalkOf(w, stop, kind)
+}
+
+// exhaustive small scope (thorough tier): every name of at most two labels of one or two octets, and every name of
+// three one-octet labels, over {a, '.', '\', '0'} — a letter, the separator, the escape character and a digit
+func vC03ZoneWalkExhaustive(emit func(map[string]any)) {
+	alphabet := []byte{'a', '.', '\\', '0'}
+	var l1, l2 [][]byte
+	for _, x := range alphabet {
+		l1 = append(l1, []byte{x})
+		for _, y := range alphabet {
+			l2 = append(l2, []byte{x, y})
+		}
+	}
+	labels := append(append([][]byte(nil), l1...), l2...)
+	wire := func(ls ...[]byte) []byte {
+		var w []byte
+		for _, l := range ls {
+			w = append(w, byte(len(l)))
+			w = append(w, l...)
+		}
+		return append(w, 0)
+	}
+	emit(vC03ZoneWalkOf(wire(), 0, "zones-exhaustive"))
+	for _, a := range labels {
+		emit(vC03ZoneWalkOf(wire(a), 0, "zones-exhaustive"))
+		for _, b := range labels {
+			emit(vC03ZoneWalkOf(wire(a, b), 0, "zones-exhaustive"))
+		}
+	}
+	for _, a := range l1 {
+		for _, b := range l1 {
+			for _, c := range l1 {
+				emit(vC03ZoneWalkOf(wire(a, b, c), 0, "zones-exhaustive"))
+			}
+		}
+	}
+}
+
+func vC03ZoneWalkOf(w []byte, stop int, kind string) map[string]any {
 	pres, presOK := "", false
 	if s, off, err := dns.UnpackDomainName(w, 0); err == nil && off == len(w) {
 		if back := vC03WireOf(s); back != nil && string(back) == string(w) {
 			pres, presOK = s, true
 		}
-	}
-	stop := 0
-	if r.Intn(3) == 0 {
-		stop = 1 + r.Intn(4)
 	}
 	goFail := ""
 	var zp, zw, sf [][]byte
@@ -2695,6 +2735,9 @@ func TestVerifC03Store(t *testing.T) {
 	tr := vC03Open(t)
 	defer tr.f.Close()
 	vC03Corpus(t, tr)
+	if os.Getenv("VERIF_TIER") == "thorough" {
+		vC03ZoneWalkExhaustive(tr.emit)
+	}
 	for i := 0; i < vC03MatrixSize; i++ {
 		tr.emit(vC03AudienceMatrix(i))
 	}
